@@ -25,6 +25,7 @@ type c11Spec struct {
 	Seed  uint64 `json:"seed,omitempty"`
 	BS    int    `json:"bs,omitempty"`
 	Shape string `json:"shape,omitempty"`
+	Pick  int    `json:"pick,omitempty"` // disjoint-at-wrap: 1-based index into the length list (0 = random)
 }
 
 type c11Space struct {
@@ -40,7 +41,7 @@ var c11Thorough = []c11Space{
 }
 
 var c11RandBS = []int{1, 2, 3, 7, 64, 1000, 4096, 65536}
-var c11Shapes = []string{"nomatch", "phases", "wrapmatch", "lowentropy", "tailprefix", "exact4m", "fresh-tail"}
+var c11Shapes = []string{"nomatch", "phases", "wrapmatch", "lowentropy", "tailprefix", "exact4m", "fresh-tail", "disjoint-at-wrap"}
 
 func c11Cases(tier string, seed uint64, flavor string) []lib.Case {
 	var cases []lib.Case
@@ -65,6 +66,13 @@ func c11Cases(tier string, seed uint64, flavor string) []lib.Case {
 	for i := 0; i < n; i++ {
 		s := c11Spec{Mode: "rand", Seed: lib.Mix(seed, 11, uint64(i)), BS: c11RandBS[i%len(c11RandBS)], Shape: c11Shapes[(i/len(c11RandBS))%len(c11Shapes)]}
 		cases = append(cases, lib.Case{Seed: s.Seed, Kind: "rand:" + s.Shape, Spec: lib.MustSpec(s)})
+	}
+	// every length around the buffer wrap, for the small block sizes (deterministic list)
+	for _, bs := range []int{1, 2, 3} {
+		for pick := 1; pick <= 10; pick++ {
+			s := c11Spec{Mode: "rand", Seed: lib.Mix(seed, 111, uint64(bs), uint64(pick)), BS: bs, Shape: "disjoint-at-wrap", Pick: pick}
+			cases = append(cases, lib.Case{Seed: s.Seed, Kind: "rand:" + s.Shape, Spec: lib.MustSpec(s)})
+		}
 	}
 	return cases
 }
@@ -292,6 +300,24 @@ func c11Rand(s c11Spec, res *lib.Result) {
 	case "fresh-tail": // matches first, then a fresh tail of about 4 MiB (+/- a block)
 		nd = append(nd, oldBlocks(3)...)
 		nd = append(nd, junk(M4+r.PickInt([]int{-bs - 1, -1, 0, 1, bs - 1, bs, bs + 1, 2 * bs}))...)
+	case "disjoint-at-wrap":
+		// new content that can never match (byte values disjoint from the old files) and ends exactly at / next to
+		// the point where the working buffer (4 MiB + 2 blocks) wraps: the differ is rolling when the input ends
+		for i := range olds {
+			for k := range olds[i] {
+				olds[i][k] &= 0x7f
+			}
+		}
+		B := M4 + 2*bs
+		lens := []int{B - 1, B, B + 1, B + bs - 1, B + bs, B + bs + 1, 2*B - bs - 1, 2*B - bs, 2*B - bs + 1, 2 * B}
+		n := r.PickInt(lens)
+		if s.Pick > 0 {
+			n = lens[(s.Pick-1)%len(lens)]
+		}
+		nd = lib.RandomBytes(int64(n), r.Uint64())
+		for k := range nd {
+			nd[k] |= 0x80
+		}
 	case "exact4m":
 		nd = junk(r.PickInt([]int{M4 - bs - 1, M4 - bs, M4 - 1, M4, M4 + 1, M4 + bs - 1, M4 + bs, M4 + bs + 1, M4 + 2*bs, M4 + 2*bs + 1}))
 		if r.Bool() {
